@@ -374,7 +374,7 @@ def check_kinds(ctx, syn, efile, ts, res, rule, prule, mir=None):
                         rc = canon(Exprs(cf[0]).local(0)) if len(cf) == 1 else "?"
                         cls = [canon(Exprs(g).local(0)) for g in mir.fns.values() if g.kind == "Closure" and cf and g.parent == cf[0].key]
                         okc = (re.match(r"^Iterator::sum\(Iterator::map\(slice::iter\(param1\.file\.nonterminals\), [\w:]+::\{closure#0\}\{\}\)\)$", rc) is not None and len(cls) == 1
-                               and set(cls[0][4:-1].split(" | ")) == {"Vec::len((param2 as Enum).0.variants)", "const(1_usize)"}) or re.match(r"^Iterator::count\(File::get_rules\(param1\.file\)\)$", rc) is not None
+                               and set(cls[0][4:-1].split(" | ")) == {"Vec::len((param2 as Enum).0.variants)", "const(1_usize)"}) or re.match(r"^Iterator(@\w+)?::count\(File::get_rules\(param1\.file\)\)$", rc) is not None
                         res.inst(rule, "rule-count|%s" % mc.group(1), cf[0].where if cf else t.where, True, "%s ; %s" % (rc[:120], cls))
                         if not okc:
                             res.violate(rule, "rule-count|%s" % mc.group(1), cf[0].where if cf else t.where, "the number of rule-kind variants must be the number of rules (one per struct, one per enum variant of every declared nonterminal); `%s` computes `%s` %s — a dispatch arm then names a variant that does not exist, or reductions are numbered past the enum" % (mc.group(1), rc[:160], cls))
